@@ -11,6 +11,7 @@ import ast
 from fractions import Fraction
 
 from .loader import norm
+from .loader import clone
 from .poly import P
 
 
@@ -25,6 +26,10 @@ class Contradiction(Exception):
 
 class Undecidable(Exception):
     pass
+
+
+class Refuted(Exception):
+    """A hint is provably not covered by the checks that dominate it."""
 
 
 class ListBits:
@@ -76,6 +81,8 @@ class Valuer:
         self.facts = facts or Facts()
         self.invs = {}                    # inv symbol name -> argument poly
         self.lemmas = []
+        self.exact_int = False            # integer semantics: `x % modulus` is not x (Python-agreement rules of C05)
+        self.uninterp = False             # unknown calls become uninterpreted function symbols (lock-step rule of C04)
 
     # -------------------------------------------------------------- assumptions
     def assume(self, test, truth):
@@ -188,6 +195,13 @@ class Valuer:
                             return isinstance(test.ops[0], ast.Eq)
             except Undecidable:
                 pass
+        if isinstance(test, (ast.Name, ast.Attribute, ast.BinOp, ast.IfExp)):
+            try:
+                a = self.val(test)
+                if isinstance(a, P) and a.is_const():
+                    return a.const_value() != 0
+            except Undecidable:
+                pass
         raise NeedCase(test)
 
     def inv(self, a):
@@ -233,10 +247,18 @@ class Valuer:
             if isinstance(n.op, ast.Not):
                 return P.const(0 if self.decide(n.operand) else 1)
         if isinstance(n, ast.BinOp):
-            if isinstance(n.op, ast.Mod) and norm(n.right).endswith("get_modulus()"):
+            if isinstance(n.op, ast.Mod) and not self.exact_int and norm(n.right).endswith("get_modulus()"):
                 return self._p(n.left)          # congruence mod p
-            if isinstance(n.op, ast.Mod) and norm(n.right) in ("PRIME", "snarkjsp", "modulus", "vc_p"):
+            if isinstance(n.op, ast.Mod) and not self.exact_int and norm(n.right) in ("PRIME", "snarkjsp", "modulus", "vc_p"):
                 return self._p(n.left)
+            if isinstance(n.op, ast.Mod) and self.exact_int and (norm(n.right).endswith("get_modulus()") or norm(n.right) in (
+                    "PRIME", "snarkjsp", "modulus", "vc_p")):
+                l0 = self._p(n.left)
+                if self.facts.subst:
+                    l0 = l0.subst(self.facts.subst)
+                if l0.is_zero() or any(l0 == z or l0 == -z for z in self.facts.zero):
+                    return P()
+                return P.sym("residue(%s)" % l0)    # over the integers a residue is NOT the value
             l, r = self._p(n.left), self._p(n.right)
             if isinstance(n.op, ast.Add):
                 return l + r
@@ -290,6 +312,18 @@ class Valuer:
                 raise Undecidable("from_bits of a list that is not a recognised decomposition")
             if short == "_ensurelc" and len(n.args) == 1:
                 return self.val(n.args[0])
+            if self.uninterp and not n.keywords and not any(isinstance(a, ast.Starred) for a in n.args):
+                # uninterpreted function symbol applied to the value terms of its arguments
+                args = [self._p(a) for a in n.args]
+                if args and norm(n.args[-1]).endswith("get_modulus()"):
+                    args = args[:-1]          # reduction modulo the field prime: a congruence
+                base = ""
+                if isinstance(n.func, ast.Attribute) and n.func.attr not in ("value", "lc"):
+                    try:
+                        base = "%s." % self._p(n.func.value)
+                    except Undecidable:
+                        base = norm(n.func.value) + "."
+                return P.sym("%s%s(%s)" % (base, short, ",".join(str(a) for a in args)))
             raise Undecidable("call %s" % f)
         if isinstance(n, ast.ListComp):
             lb = self.bits_idiom(n)
@@ -326,47 +360,216 @@ class Valuer:
                 return None
             of = self._p(E)
             width = self._p(g.iter.args[0])
-            if not self.bounded(E, of, g.iter.args[0]):
-                raise Undecidable("decomposition of `%s` into `%s` bits without a dominating range check" % (norm(E), norm(g.iter.args[0])))
+            bd = self.bounded(E, of, g.iter.args[0])
+            if bd == "no":
+                raise Refuted("the bits of `%s` are taken over `%s` positions, but the dominating checks do not imply 0 <= %s < 2^%s" % (
+                    norm(E), norm(g.iter.args[0]), norm(E), norm(g.iter.args[0])))
+            if bd != "yes":
+                raise Undecidable("decomposition of `%s` into `%s` bits without a recognised dominating range check" % (norm(E), norm(g.iter.args[0])))
             return ListBits(of, width, comp)
         if isinstance(e, ast.Constant) and e.value in (0, False):
             return ListBits(P(), self._p(g.iter.args[0]), comp)
         return None
 
     def bounded(self, E, of, N):
-        """0 <= E < 2^N follows from the recorded facts (bit_length bound + sign)."""
+        """'yes' / 'no' / 'unknown': does 0 <= E < 2^N follow from the recorded facts?
+
+        Interval reasoning over the comparisons recorded as facts.  T = 2^N is a symbol; every fact of the forms
+            X.bit_length() <= N + k | < N + k     (=> |X| < 2^k * T)
+            abs(X) < T | <= T - 1
+            X < B, X <= B, X > B, X >= B          with B linear in T (`1 << N`, `2 ** N`), chains included
+        contributes integer bounds lo <= X <= hi on the subject X.  `of` must be c*X + d with c in {1,-1}.
+        'no' means the facts that mention the subject are all understood and do not imply the bound (so the bit
+        decomposition hint can be wrong for a value the dominating checks let through); 'unknown' means some fact
+        mentioning the subject was not understood."""
         ntxt = norm(N)
-        bl = False
-        for t, tr in self.facts.truth.items():
-            if t.endswith(".bit_length() <= %s" % ntxt) and tr:
-                bl = True
-            if t.endswith(".bit_length() > %s" % ntxt) and not tr:
-                bl = True
-            if t.endswith(".bit_length() < %s" % ntxt) and tr:
-                bl = True
-        if not bl:
-            return False
-        # sign
-        for t, tr in self.facts.truth.items():
-            for pat, want in ((" >= 0", True), (" < 0", False)):
-                if t.endswith(pat) and tr == want:
-                    base = t[: -len(pat)]
+        T = "2^N"
+
+        class _Pow(ast.NodeTransformer):
+            def visit_BinOp(self, n):
+                self.generic_visit(n)
+                if isinstance(n.op, ast.LShift) and norm(n.left) == "1" and norm(n.right) == ntxt:
+                    return ast.copy_location(ast.Name(id="__pow2N__", ctx=ast.Load()), n)
+                if isinstance(n.op, ast.Pow) and norm(n.left) == "2" and norm(n.right) == ntxt:
+                    return ast.copy_location(ast.Name(id="__pow2N__", ctx=ast.Load()), n)
+                return n
+
+        def lin_T(p):
+            """(a, b) with p == a*T + b, or None"""
+            a = b = 0
+            for mono, c in p.t.items():
+                if mono == ():
+                    b = c
+                elif mono == ((T, 1),):
+                    a = c
+                else:
+                    return None
+            try:
+                if int(a) != a or int(b) != b:
+                    return None
+            except Exception:
+                return None
+            return (int(a), int(b))
+
+        def val_T(node):
+            import copy as _copy
+            n2 = _Pow().visit(clone(node))
+            old = self.env.get("__pow2N__")
+            self.env["__pow2N__"] = P.sym(T)
+            try:
+                return self.val(n2)
+            finally:
+                if old is None:
+                    self.env.pop("__pow2N__", None)
+                else:
+                    self.env["__pow2N__"] = old
+
+        if of.is_const():
+            return "yes" if of.const_value() == 0 else "unknown"
+        of_syms = of.symbols()
+        bounds = []          # (X poly, 'lo'|'hi', (a, b))
+        unknown = False
+        FLIP = {ast.Lt: ast.Gt, ast.LtE: ast.GtE, ast.Gt: ast.Lt, ast.GtE: ast.LtE}
+
+        def mentions(node):
+            try:
+                v = val_T(node)
+            except Exception:
+                return any(isinstance(x, ast.Name) and x.id in of_syms for x in ast.walk(node)) or \
+                    any(s in norm(node) for s in of_syms)
+            return isinstance(v, P) and bool(v.symbols() & of_syms)
+
+        def add_cmp(left, op, right):
+            """record left op right (already with its truth applied)"""
+            nonlocal unknown
+            for side, other, flip in ((left, right, False), (right, left, True)):
+                if isinstance(side, ast.Call) and isinstance(side.func, ast.Attribute) and side.func.attr == "bit_length" and not side.args:
+                    o = FLIP.get(type(op), type(op))() if flip else op
                     try:
-                        bp = self.val(ast.parse(base, mode="eval").body)
+                        X = self.val(side.func.value)
                     except Exception:
-                        continue
-                    if isinstance(bp, P) and bp == of:
-                        return True
-            for pat, want in ((" >= 0", False), (" < 0", True)):
-                if t.endswith(pat) and tr == want:
-                    base = t[: -len(pat)]
+                        unknown = unknown or mentions(side.func.value)
+                        return
+                    if not isinstance(o, (ast.LtE, ast.Lt)):
+                        return
+                    k = None
+                    if norm(other) == ntxt:
+                        k = 0
+                    else:
+                        try:
+                            dk = self.val(other) - self.val(N)
+                            if dk.is_const() and int(dk.const_value()) == dk.const_value():
+                                k = int(dk.const_value())
+                        except Exception:
+                            k = None
+                    if k is not None and isinstance(o, ast.Lt):
+                        k -= 1
+                    if k is not None:
+                        m = 2 ** k if k > 0 else 1          # |X| < 2^(N+k)
+                        bounds.append((X, "lo", (-m, 1)))
+                        bounds.append((X, "hi", (m, -1)))
+                    elif isinstance(X, P) and X.symbols() & of_syms:
+                        unknown = True      # bound by some unrelated width
+                    return
+                if isinstance(side, ast.Call) and norm(side.func) == "abs" and len(side.args) == 1:
+                    o = FLIP.get(type(op), type(op))() if flip else op
                     try:
-                        bp = self.val(ast.parse(base, mode="eval").body)
+                        X = self.val(side.args[0])
+                        B = lin_T(val_T(other))
                     except Exception:
+                        unknown = unknown or mentions(side.args[0])
+                        return
+                    if B is None:
+                        unknown = unknown or bool(X.symbols() & of_syms)
+                        return
+                    if isinstance(o, ast.Lt):
+                        B = (B[0], B[1] - 1)
+                    if isinstance(o, (ast.Lt, ast.LtE)):
+                        bounds.append((X, "hi", B))
+                        bounds.append((X, "lo", (-B[0], -B[1])))
+                    return
+            try:
+                L, R = val_T(left), val_T(right)
+            except Exception:
+                unknown = unknown or mentions(left) or mentions(right)
+                return
+            if not isinstance(L, P) or not isinstance(R, P):
+                return
+            lt, rt = lin_T(L), lin_T(R)
+            if lt is None and rt is not None:
+                X, B, o = L, rt, op
+            elif rt is None and lt is not None:
+                X, B = R, lt
+                o = FLIP.get(type(op), type(op))()
+            else:
+                if lt is None and rt is None and (L.symbols() | R.symbols()) & of_syms and isinstance(op, (ast.Lt, ast.LtE, ast.Gt, ast.GtE)):
+                    unknown = True
+                return
+            if isinstance(o, ast.Lt):
+                bounds.append((X, "hi", (B[0], B[1] - 1)))
+            elif isinstance(o, ast.LtE):
+                bounds.append((X, "hi", B))
+            elif isinstance(o, ast.Gt):
+                bounds.append((X, "lo", (B[0], B[1] + 1)))
+            elif isinstance(o, ast.GtE):
+                bounds.append((X, "lo", B))
+            elif isinstance(o, ast.Eq):
+                bounds.append((X, "lo", B))
+                bounds.append((X, "hi", B))
+
+        NEG = {ast.Lt: ast.GtE, ast.LtE: ast.Gt, ast.Gt: ast.LtE, ast.GtE: ast.Lt, ast.Eq: ast.NotEq, ast.NotEq: ast.Eq}
+        for t, tr in list(self.facts.truth.items()):
+            try:
+                node = ast.parse(t, mode="eval").body
+            except SyntaxError:
+                continue
+            if not isinstance(node, ast.Compare):
+                if isinstance(node, ast.BoolOp) and mentions(node):
+                    unknown = True          # an undecomposed disjunction about the subject
+                continue
+            if len(node.ops) == 1:
+                op = node.ops[0]
+                if not tr:
+                    if type(op) not in NEG:
                         continue
-                    if isinstance(bp, P) and (of == -bp - 1 or of == -bp):
-                        return True       # ~x >= 0 and -x > 0 for x < 0; bit_length(~x) <= bit_length(-x) == bit_length(x)
-        return False
+                    op = NEG[type(op)]()
+                add_cmp(node.left, op, node.comparators[0])
+            elif tr:
+                items = [node.left] + list(node.comparators)
+                for k, op in enumerate(node.ops):
+                    add_cmp(items[k], op, items[k + 1])
+            elif mentions(node):
+                unknown = True              # a false chain is a disjunction
+
+        def le(x, y):
+            """a*T+b <= a'*T+b' for every T >= 1"""
+            return x[1] - y[1] <= (y[0] - x[0]) and x[0] <= y[0]
+
+        lo_ok = hi_ok = False
+        for X, kind, B in bounds:
+            if not isinstance(X, P):
+                continue
+            for c in (1, -1):
+                d = of - X * P.const(c)
+                if not d.is_const():
+                    continue
+                dv = d.const_value()
+                try:
+                    if int(dv) != dv:
+                        continue
+                except Exception:
+                    continue
+                dv = int(dv)
+                ofb = (c * B[0], c * B[1] + dv)
+                if (c == 1 and kind == "lo") or (c == -1 and kind == "hi"):
+                    if le((0, 0), ofb):          # lower bound of `of`
+                        lo_ok = True
+                else:
+                    if le(ofb, (1, -1)):         # upper bound of `of`
+                        hi_ok = True
+        if lo_ok and hi_ok:
+            return "yes"
+        return "unknown" if unknown else "no"
 
     # -------------------------------------------------------------- simplification
     def simplify(self, p):
@@ -430,6 +633,8 @@ def all_cases(build, assumptions, max_cases=64):
             return
         except Undecidable as e:
             results.append((["%s=%s" % (norm(t), tr) for t, tr in extra], "undecidable: %s" % e, None))
+        except Refuted as e:
+            results.append((["%s=%s" % (norm(t), tr) for t, tr in extra], "refuted: %s" % e, None))
     go([])
     return results
 
@@ -439,11 +644,13 @@ class Path:
     def __init__(self):
         self.conds = []      # (test node, polarity)
         self.assigns = []    # (name, value node)  in order
+        self.steps = []      # ("cond", test, polarity) | ("assign", name, value node)  interleaved, in execution order
 
     def copy(self):
         p = Path()
         p.conds = list(self.conds)
         p.assigns = list(self.assigns)
+        p.steps = list(self.steps)
         return p
 
 
@@ -469,6 +676,7 @@ def paths_to(fnode, target, max_paths=64):
                     for pol, body in ((True, s.body), (False, s.orelse)):
                         q = p.copy()
                         q.conds.append((s.test, pol))
+                        q.steps.append(("cond", s.test, pol))
                         nxt += walk(body, q)
                 elif isinstance(s, (ast.Return, ast.Raise)):
                     if contains(s):
@@ -488,10 +696,12 @@ def paths_to(fnode, target, max_paths=64):
                     if isinstance(s, ast.Assign) and len(s.targets) == 1 and isinstance(s.targets[0], ast.Name):
                         q = p.copy()
                         q.assigns.append((s.targets[0].id, s.value))
+                        q.steps.append(("assign", s.targets[0].id, s.value))
                     elif isinstance(s, ast.AugAssign) and isinstance(s.target, ast.Name):
                         q = p.copy()
                         bn = ast.BinOp(left=ast.Name(id=s.target.id, ctx=ast.Load()), op=s.op, right=s.value)
                         q.assigns.append((s.target.id, bn))
+                        q.steps.append(("assign", s.target.id, bn))
                     nxt.append(q)
             cur = nxt
             if not cur:
